@@ -448,3 +448,12 @@ From Fiano Require Spec.ConstPins.
 Theorem C16_format_constants_pinned : Spec.ConstPins.pinned_c16.
 Proof. exact Spec.ConstPins.pins_c16. Qed.
 Print Assumptions C16_format_constants_pinned.
+
+(* the hash algorithms and digest lengths the model was generated with (Gen/Consts.v is
+   regenerated from the source on every check) are the standard ones: SHA-1, SHA-256, SHA-384,
+   SHA-512, SM3 for CBnT; SHA-1, SHA-256 for Boot Guard 1.0 *)
+Example ex_hash_table :
+  c16_cbnt_hash_ids = [4; 11; 12; 13; 18] /\ c16_cbnt_hash_sizes = [20; 32; 48; 64; 32] /\
+  c16_bg_hash_ids = [4; 11] /\ c16_bg_hash_sizes = [20; 32] /\
+  cbnt_hash_size c16_alg_sha512 = Some 64 /\ cbnt_hash_size c16_alg_sha384 = Some 48.
+Proof. repeat split; reflexivity. Qed.
